@@ -55,6 +55,26 @@ Proof. exact headmap_roundtrip. Qed.
 Theorem C13_headmap_total : forall bs length, decode_headmap bs length <> None.
 Proof. exact decode_headmap_total. Qed.
 
+(* "need more data" ONLY for an incomplete frame: a complete, well-delimited frame at
+   the head of the buffer (header there, magic right, 16 <= head length <= total length
+   <= bytes available) is always delivered, whatever its body, consuming exactly its
+   length — never answered need-more (the transport loop would stall with it) *)
+Theorem C13_complete_frame_delivered : forall data,
+  complete_frame data = true -> exists m, frame_read data = RMsg m (unbe (sub data 3 7)).
+Proof. exact complete_frame_delivered. Qed.
+
+Theorem C13_need_only_incomplete : forall data hint,
+  frame_read data = RNeed hint -> complete_frame data = false.
+Proof. exact need_only_incomplete. Qed.
+
+(* Read is a function of the bytes it is given (the model's frame_read takes nothing
+   else): two connections served by the ONE handler instance, their receives interleaved
+   in any order, one of them possibly dying mid-frame — each delivers exactly what it
+   would deliver alone *)
+Theorem C13_interleaving : forall sched,
+  drive2 conn0 conn0 sched = (drive (chunks_of false sched), drive (chunks_of true sched)).
+Proof. exact FrameProofs.C13_interleaving. Qed.
+
 (* ---- non-vacuity: concrete non-trivial objects inside every hypothesis ---- *)
 Definition ex_head : headmap :=
   [ ([x6b], [x76; x31]); ([], [x65]); ([x6e; x6f], []) ].   (* "k"->"v1", ""->"e", "no"->"" *)
@@ -98,3 +118,21 @@ Example C13_garbage_nonvacuous :
   /\ frame_read ([xda; xda; x01; x00; x00; x00; x0f; x00; x10] ++ repeat x00 7) = RErr
   /\ drive [[xda; xda]; [x01; x00]; [x00; x00; x10; x00; x0f] ++ repeat x00 7] = [Close].
 Proof. vm_compute. auto 10. Qed.
+
+(* connection A dies 20 bytes into its 41-byte frame; connection B's 16- and 19-byte
+   frames, received in between, are delivered all the same *)
+Example C13_interleaving_nonvacuous :
+  let fa := frame_write ex_msg1 in let fb := frame_write ex_msg2 ++ frame_write ex_msg3 in
+  drive2 conn0 conn0 [(false, firstn 9 fa); (true, firstn 10 fb); (false, firstn 11 (skipn 9 fa));
+                      (true, skipn 10 fb)]
+  = ([], [Deliver ex_msg2; Deliver ex_msg3]).
+Proof. vm_compute. reflexivity. Qed.
+
+(* a complete frame whose body no codec knows (type code 0x7777) is delivered, bytes and all *)
+Example C13_complete_frame_nonvacuous :
+  let f := [xda; xda; x01; x00; x00; x00; x14; x00; x10; x00; x01; x00; x00; x00; x00; x09; x77; x77; x01; x02] in
+  complete_frame f = true /\ complete_frame (firstn 19 f) = false
+  /\ frame_read f = RMsg {| r_id := 9; r_type := 0; r_codec := 1; r_compressor := 0; r_head := [];
+                            r_body := [x77; x77; x01; x02] |} 20
+  /\ frame_read (firstn 19 f) = RNeed 20.
+Proof. vm_compute. auto. Qed.
